@@ -40,7 +40,7 @@ CLAIMED = {
  "C16": dict(text=GEN + "Partial: the seconds -> (years, months, days, hours, minutes) conversions of the Default, China95 and LunarSect2 strategies for every difference up to 32 days, and the calendar addition of AbstractChildLimitProvider::next (clock carries, day overflow through arbitrary month lengths with the loop bound proved, start month, month steps) — engine B on the compiler's MIR with overflow asserts proved. Not covered: forward/backward rule, fortunes, LunarSect1, months with missing days.",
              note="Assumes: the difference to the governing Jie is arbitrary within +-32 days (ENV-J); month lengths arbitrary 21..31 and months as ordinals 12y+m-1 (C01/C11); SolarTime getters within their invariant ranges (C12 12.0).",
              technique=ENGB),
- "C02": dict(text=GEN + "Partial: lunar before/after = chronological order (year, index in year, day) including a month vs its leap twin, for any leap month; LunarDay::new accepts exactly day 1..day count; LunarMonth::new invariant — engine B, counterexamples realised on a real year with that leap month. Not covered: the two round trips and the consecutive-day mapping (they depend on the real new-moon table, which has known gaps in AD 9-25 and AD 240).",
+ "C02": dict(text=GEN + "Partial: lunar before/after = chronological order (year, index in year, day) including a month vs its leap twin, for any leap month; LunarDay::new accepts exactly day 1..day count; LunarMonth::new invariant — engine B, counterexamples realised on a real year with that leap month. the civil -> lunar walk and its inverse under an abstract tiling month table (round trips and consecutive-day mapping hold wherever the real table tiles). Not covered: that the real new-moon table tiles (it has known gaps in AD 9-25 and AD 240).",
              note="Assumes: month records satisfy the constructor's invariant (03.c, decided in the same run).",
              technique=ENGB),
  "C03": dict(text=GEN + "Partial (structural clauses): LunarMonth::new acceptance and index in year for any leap table and any astronomy (engine B); month stepping moves by exactly n on the month line of any leap table, leap month right after its twin (Kani, = 11.e); year listing (Kani, thorough). Not covered: 29/30-day lengths, abutment, year lengths — data of ~123,700 evaluated lunations.",
